@@ -21,8 +21,8 @@ func (l lockSet) clone() lockSet {
 	return o
 }
 
-func (l lockSet) holds(x string) bool    { return l[x] || l[x+"#r"] }
-func (l lockSet) holdsW(x string) bool   { return l[x] }
+func (l lockSet) holds(x string) bool  { return l[x] || l[x+"#r"] }
+func (l lockSet) holdsW(x string) bool { return l[x] }
 func (l lockSet) String() string {
 	var ks []string
 	for k := range l {
@@ -164,15 +164,15 @@ func sameSet(a, b lockSet) bool {
 
 // bodyUnit is one function body (declaration or literal) with its graph.
 type bodyUnit struct {
-	Pkg    *packagesPkg
-	Decl   *ast.FuncDecl // enclosing declaration (nil for package-level literals)
-	Lit    *ast.FuncLit  // nil for the declaration's own body
-	Body   *ast.BlockStmt
-	FG     *FGraph
-	Locks  []lockSet
-	IsGo   bool // literal is the operand of a go statement
+	Pkg     *packagesPkg
+	Decl    *ast.FuncDecl // enclosing declaration (nil for package-level literals)
+	Lit     *ast.FuncLit  // nil for the declaration's own body
+	Body    *ast.BlockStmt
+	FG      *FGraph
+	Locks   []lockSet
+	IsGo    bool // literal is the operand of a go statement
 	IsDefer bool
-	Name   string
+	Name    string
 }
 
 // allBodies builds graphs and lock sets for every function body of the given
